@@ -46,8 +46,10 @@ pub enum Ev {
     LCloseR,
     /// the peer sends a second attach for the sender link that is already attached (same name, same handle)
     PDupAttach,
+    /// application: sender.on_detach() (waits for / observes the peer's detach; cancelled at its horizon)
+    LOnDetachS,
 }
-pub const ALPHABET: [Ev; 24] = [
+pub const ALPHABET: [Ev; 25] = [
     Ev::LAttachS,
     Ev::LSend,
     Ev::LCloseS,
@@ -72,6 +74,7 @@ pub const ALPHABET: [Ev; 24] = [
     Ev::LAttachR,
     Ev::LCloseR,
     Ev::PDupAttach,
+    Ev::LOnDetachS,
 ];
 
 #[derive(Debug, Clone, Default)]
@@ -210,6 +213,8 @@ pub async fn scenario(events: Vec<Ev>) -> Obs {
             Ev::LAttachS => sess_alive && sender.is_none(),
             Ev::LAttachR => sess_alive && receiver.is_none(),
             Ev::LSend | Ev::LDetachS | Ev::LCloseS | Ev::LDropS | Ev::LSendsDropLink => sender.is_some(),
+            // (only when the peer's detach is there to be observed: otherwise the call just waits)
+            Ev::LOnDetachS => sender.is_some() && peer_detached_s.is_some(),
             Ev::LSendsEnd | Ev::LSendsEndErr | Ev::LSendsDropSession => sender.is_some() && sess_alive && peer_detached_s.is_none(),
             Ev::LCloseR => receiver.is_some(),
             Ev::LEnd | Ev::LEndErr | Ev::LDropSession => sess_alive,
@@ -325,6 +330,23 @@ pub async fn scenario(events: Vec<Ev>) -> Obs {
                             obs.fails.push(("send-hangs-after-remote-detach".into(), "send() never returned although the peer had detached the link / ended the session".into()));
                         }
                     }
+                }
+            }
+            Ev::LOnDetachS => {
+                // Permissive reading: on_detach() only reports the peer's detach; the answer in kind is due with
+                // the next call that can send one (detach / close / send / drop)
+                let s = sender.as_mut().unwrap();
+                let r = drive(&mut c.peer, s.on_detach(), h).await;
+                call_results.push(format!("on_detach() -> {:?}", r.as_ref().map(|e| e.to_string())));
+                // (the error carried by the peer's detach has reached the caller: a later close() need not repeat it)
+                if let (Some(e), Some((_, Some(pe), _))) = (&r, &peer_detached_s) {
+                    if format!("{:?}", e).contains(&format!("{:?}", pe.condition)) {
+                        peer_detach_error_delivered = true;
+                    }
+                }
+                // (a session that has sent its end discards what still arrives: the detach is then never seen)
+                if r.is_none() && lib_end(&c.peer.trace).is_none() {
+                    obs.fails.push(("on_detach-hangs".into(), "on_detach() did not return although the peer's detach had arrived".into()));
                 }
             }
             Ev::LSendsEnd | Ev::LSendsEndErr | Ev::LSendsDropSession | Ev::LSendsDropLink => {
